@@ -181,6 +181,8 @@ def parse_operand(s: str):
         return ("move", parse_place(s[5:]))
     if s.startswith("const "):
         return ("const", s[6:].strip())
+    if re.match(r"^[<\w]", s):      # bare item path (fn item used as a value)
+        return ("const", s)
     raise ValueError("operand: " + s)
 
 
